@@ -417,8 +417,27 @@ def run(prog, rep, tier):
                 key = 'RECUR|%s|self-call#%d' % (body.nkey, cnt)
                 cnt += 1
                 nrec += 1
+                moved_rec = None
+                if key not in rtab and not body.impl_trait and body.vis != 'pub' and body.kind != 'Closure':
+                    # the body (and the self-call) of reviewed recursive functions moved into a private helper they now delegate to: every caller of the
+                    # helper is a function whose own self-call is tabled and which no longer calls itself
+                    callers = {}
+                    for b2 in prog.crates[body.pkg].bodies:
+                        if b2.key == body.key:
+                            continue
+                        for blk2 in b2.calls():
+                            c2, e2 = resolve_call(prog, b2, blk2.term)
+                            if e2 and len(c2) == 1 and c2[0].key == body.key:
+                                callers[b2.key] = b2
+                    def self_calls(bx):
+                        return sum(1 for q in bx.calls() if (lambda r: r[1] and len(r[0]) == 1 and r[0][0].key == bx.key)(resolve_call(prog, bx, q.term)))
+                    ents = [rtab.get('RECUR|%s|self-call#%d' % (bx.nkey, cnt - 1)) for bx in callers.values()]
+                    if callers and all(ents) and all(self_calls(bx) == 0 for bx in callers.values()):
+                        moved_rec = ' / '.join(sorted({e_['bound'] for e_ in ents}))[:300]
                 if key in rtab:
                     rep.ob('RECUR', True, key, 'bounded recursion: ' + rtab[key]['bound'], body.loc(b.idx), sample='bounded: ' + rtab[key]['bound'])
+                elif moved_rec:
+                    rep.ob('RECUR', True, key, 'bounded recursion (moved from reviewed functions that now delegate to this helper): ' + moved_rec, body.loc(b.idx))
                 else:
                     rep.ob('RECUR', False, key, 'function calls itself on a path whose length is controlled by the input and no depth bound is recorded: a crafted archive can exhaust the stack', body.loc(b.idx))
     rep.floor('RECUR', nrec, 3, 'direct self-recursive call sites in scope')
